@@ -304,6 +304,165 @@ def run_partition(arg: tuple) -> tuple:
     return ctx.stats, ctx.exhausted, stats, found, dict(K.hashes), lh
 
 
+# --- W1: worker side, loading of dependency SCCs that other workers produced
+def w1_worker_deps(rep: Report, tier: str) -> None:
+    """The real maybe_load_deps + State.reload_meta in worker mode.  Symbolic: the SCC DAG, which
+    SCCs this worker already has (done_sccs, closed under dependencies as the code maintains it), and
+    per module whether the build graph broadcast by the coordinator carried no interface hash, the
+    pre-run hash or the current one.  Obligations after the call: every SCC the target depends on
+    (transitively) is loaded exactly once, dependencies before dependents, and every newly loaded
+    module carries the interface hash that is in the cache now (what dep_hashes will record)."""
+    import mypy.build as B
+
+    K = Kernel("mypy.build", ["maybe_load_deps", "State.reload_meta"], closure=False)
+    rep.kernels_from(K)
+    fn = K["maybe_load_deps"]
+    k_reload_meta = K["State.reload_meta"]
+    nscc = 3 if tier == "quick" else 4
+    pairs = [(i, j) for i in range(nscc) for j in range(i)]
+    ctx = Ctx(max_paths=3_000_000)
+    found: dict = {}
+    n = {"p": 0, "loaded": 0}
+
+    def body(c: Ctx) -> None:
+        deps = {i: set() for i in range(nscc)}
+        for i, j in pairs:
+            if bool(c.bool(f"scc{i}_depends_on_scc{j}")):
+                deps[i].add(j)
+        target = nscc - 1
+        # done_sccs: any dependency-closed subset of the SCCs below the target
+        done: set = set()
+        for i in range(nscc - 1):
+            if all(d in done for d in deps[i]) and bool(c.bool(f"worker_already_has_scc{i}")):
+                done.add(i)
+        loaded: list = []
+        disk = {f"m{i}": b"NEW" + str(i).encode() for i in range(nscc)}
+
+        class Meta:
+            def __init__(self, h: bytes):
+                self.interface_hash = h
+
+        class Mgr:
+            parallel_worker = True
+            done_sccs = set(done)
+            top_order = list(range(nscc))
+            gc_freeze_cycles = B.MAX_GC_FREEZE_CYCLES
+
+            class options:
+                test_env = True
+
+            @staticmethod
+            def log(*a: Any) -> None:
+                pass
+
+        class St:
+            def __init__(self, i: int):
+                self.id = f"m{i}"
+                self.path = self.id + ".py"
+                self.manager = Mgr
+                k = c.choose(f"broadcast_hash_of_m{i}", 3)
+                self.interface_hash = [b"", b"OLD" + str(i).encode(), disk[self.id]][k]
+
+            reload_meta = k_reload_meta
+
+        class SC:
+            def __init__(self, i: int):
+                self.id = i
+                self.mod_ids = {f"m{i}"}
+                self.deps = set(deps[i])
+
+        sccs = {i: SC(i) for i in range(nscc)}
+        Mgr.scc_by_id = sccs
+        Mgr.done_sccs = set(done)
+        graph = {f"m{i}": St(i) for i in range(nscc)}
+        K.ns["find_cache_meta"] = lambda id, path, manager, skip_validation=False: (Meta(disk[id]), None)
+        K.ns["process_fresh_modules"] = lambda g, ids, m: loaded.append(tuple(ids))
+        fn(graph, sccs[target], Mgr)
+        n["p"] += 1
+        n["loaded"] += len(loaded)
+        need: set = set()
+        todo = list(deps[target])
+        while todo:
+            x = todo.pop()
+            if x not in need:
+                need.add(x)
+                todo += list(deps[x])
+        viol = []
+        want_loaded = [(f"m{i}",) for i in range(nscc) if i in need and i not in done]
+        if loaded != want_loaded:
+            viol.append(f"loaded {loaded}, expected {want_loaded}")
+        if not need <= Mgr.done_sccs:
+            viol.append("a dependency SCC is not marked done")
+        for (m,) in loaded:
+            if graph[m].interface_hash != disk[m]:
+                viol.append(f"{m} was loaded from the cache but keeps interface hash {graph[m].interface_hash!r} instead of the cached {disk[m]!r}")
+        c.stats["assert_queries"] += 1
+        if not viol:
+            c.stats["discharged"] += 1
+        else:
+            c.stats["refuted"] += 1
+            cls = "worker: " + ("a dependency loaded from the cache keeps a stale interface hash" if any("keeps interface hash" in v for v in viol) else "dependency SCCs loaded wrongly")
+            found.setdefault(cls, (viol, c.path_model()))
+
+    ctx.explore(body)
+    rep.add_ctx("W1 worker-side dependency loading (maybe_load_deps + reload_meta)", ctx, sccs=nscc, calls=n["p"], scc_loads=n["loaded"])
+    rep.twin("W1: some call loaded an SCC", n["loaded"] > 0)
+    for key, (viol, m) in found.items():
+        rep.sample({"kernel": "maybe_load_deps", "class": key, "violations": viol, "model": m})
+
+        def replay(d: str, viol: Any = viol, m: dict = m) -> tuple[bool, str]:
+            # unmodified functions on the same concrete setup
+            deps = {i: {j for (ii, j) in pairs if ii == i and m.get(f"scc{i}_depends_on_scc{j}")} for i in range(nscc)}
+            done: set = set()
+            for i in range(nscc - 1):
+                if all(x in done for x in deps[i]) and m.get(f"worker_already_has_scc{i}"):
+                    done.add(i)
+            disk = {f"m{i}": b"NEW" + str(i).encode() for i in range(nscc)}
+            loaded: list = []
+
+            class Meta:
+                def __init__(self, h: bytes):
+                    self.interface_hash = h
+
+            class Mgr:
+                parallel_worker = True
+                top_order = list(range(nscc))
+                gc_freeze_cycles = B.MAX_GC_FREEZE_CYCLES
+
+                class options:
+                    test_env = True
+
+                @staticmethod
+                def log(*a: Any) -> None:
+                    pass
+
+            class St:
+                def __init__(self, i: int):
+                    self.id = f"m{i}"
+                    self.path = self.id + ".py"
+                    self.manager = Mgr
+                    self.interface_hash = [b"", b"OLD" + str(i).encode(), disk[self.id]][int(m.get(f"broadcast_hash_of_m{i}", 0))]
+
+                def reload_meta(self) -> None:
+                    B.State.reload_meta(self)  # type: ignore[arg-type]
+
+            sccs = {i: B.SCC({f"m{i}"}, i, sorted(deps[i])) for i in range(nscc)}
+            Mgr.scc_by_id = sccs  # type: ignore[attr-defined]
+            Mgr.done_sccs = set(done)  # type: ignore[attr-defined]
+            graph = {f"m{i}": St(i) for i in range(nscc)}
+            old = (B.find_cache_meta, B.process_fresh_modules)
+            B.find_cache_meta = lambda id, path, manager, skip_validation=False: (Meta(disk[id]), None)  # type: ignore[assignment]
+            B.process_fresh_modules = lambda g, ids, mg: loaded.append(tuple(ids))  # type: ignore[assignment]
+            try:
+                B.maybe_load_deps(graph, sccs[nscc - 1], Mgr)  # type: ignore[arg-type]
+            finally:
+                B.find_cache_meta, B.process_fresh_modules = old  # type: ignore[assignment]
+            stale = [mm for (mm,) in loaded if graph[mm].interface_hash != disk[mm]]
+            return bool(stale) or "loaded" in str(viol), f"unmodified maybe_load_deps: loaded {loaded}; modules keeping a stale interface hash: {stale}"
+
+        rep.candidate(key, f"{viol} under {m}", m, replay)
+
+
 def main(args: Any) -> int:
     rep = Report(PID, args.tier, "symbolic execution of the real coordinator scheduling loop and BuildManager queue/batch methods with solver-chosen DAGs, size hints, worker counts and response arrival subsets at every wait; partitioned over processes")
     import mypy.build  # noqa: F401
@@ -335,6 +494,8 @@ def main(args: Any) -> int:
             found.setdefault(k, v)
         rep.kernels.update(hashes)
         rep.kernel("mypy.build.process_graph[scheduling loop]", lh)
+    w1_worker_deps(rep, args.tier)
+    rep.bounds.append("W1 (worker side): every DAG among 3/4 single-module SCCs, every dependency-closed set of SCCs the worker already holds, per module the broadcast interface hash absent / pre-run / current")
     rep.add_ctx("coordinator scheduling under all arrival orders", tot, partitions=len(parts), schedules=sched, longest_schedule_waits=maxsteps)
     rep.twin("schedules explored", sched > 0)
     rep.sample({"sccs": nscc, "workers": [1, 2, 3], "schedules": sched})
